@@ -189,6 +189,20 @@ func GenerateHooked(spec DocSpec, hook func(kind string, num int, o Obj) Obj, pr
 
 // GenerateWith additionally takes a hook on cross-reference offsets.
 func GenerateWith(spec DocSpec, hook func(kind string, num int, o Obj) Obj, prevHook func(rev, xrefOff, prev int) int, offsetHook func(rev, num, off int) int) *GenDoc {
+	return GenerateHooks(spec, Hooks{Obj: hook, Prev: prevHook, Offset: offsetHook})
+}
+
+// Hooks are the writer's fault-injection seams.
+type Hooks struct {
+	Obj    func(kind string, num int, o Obj) Obj
+	Prev   func(rev, xrefOff, prev int) int
+	Offset func(rev, num, off int) int
+	Entry  func(rev, num, typ, a, b int) (int, int, int)
+}
+
+// GenerateHooks builds the document with any of the hooks set.
+func GenerateHooks(spec DocSpec, h Hooks) *GenDoc {
+	hook, prevHook, offsetHook := h.Obj, h.Prev, h.Offset
 	r := sim.NewRand(spec.Seed)
 	st := Style{EOL: eolOf(spec.EOL), Tight: spec.Tight, Loose: spec.Loose, Comments: spec.Comments, HexPct: spec.HexPct,
 		NameEsc: spec.NameEsc, DictBreak: spec.DictBreak, OctalPct: 50}
@@ -216,6 +230,7 @@ func GenerateWith(spec DocSpec, hook func(kind string, num int, o Obj) Obj, prev
 	d.w.Hook = hook
 	d.w.PrevHook = prevHook
 	d.w.OffsetHook = offsetHook
+	d.w.EntryHook = h.Entry
 
 	out := &GenDoc{Spec: spec}
 	set := map[int]Obj{}
